@@ -2096,4 +2096,226 @@ theorem slice_reg (a : Nat) (fuel : Nat) (k : K) (evs : List Ev) (h : RegInv k) 
   · intro k' hp
     exact ⟨die_reg k' a false hp.1, die_runOk k' a false⟩
 
+/-- what a slice / a death of actor `a` leaves alone: the other actors and actors_to_run_ -/
+def OtherFr (a : Nat) (k k' : K) : Prop := k'.toRun = k.toRun ∧ ∀ b, b ≠ a → k'.actor b = k.actor b
+
+theorem OtherFr.trans {a : Nat} {k1 k2 k3 : K} (h1 : OtherFr a k1 k2) (h2 : OtherFr a k2 k3) : OtherFr a k1 k3 :=
+  ⟨h2.1.trans h1.1, fun b hb => (h2.2 b hb).trans (h1.2 b hb)⟩
+
+theorem otherFr_setActor (k : K) (a : Nat) (f : Actor → Actor) : OtherFr a k (k.setActor a f) :=
+  ⟨rfl, fun b hb => actor_setActor_ne k a b f (Ne.symm hb)⟩
+
+theorem otherFr_of (a : Nat) (k k' : K) (h1 : k'.actors = k.actors) (h2 : k'.toRun = k.toRun) : OtherFr a k k' :=
+  ⟨h2, fun b _ => by unfold K.actor; rw [h1]⟩
+
+theorem cancel_actors (k : K) (i : Nat) : (k.cancel i).actors = k.actors ∧ (k.cancel i).toRun = k.toRun := by
+  unfold K.cancel
+  simp only []
+  split <;> (try split) <;> exact ⟨rfl, rfl⟩
+
+theorem foldl_cancel_actors (l : List Nat) (k : K) :
+    (l.foldl (fun k i => k.cancel i) k).actors = k.actors ∧ (l.foldl (fun k i => k.cancel i) k).toRun = k.toRun := by
+  induction l generalizing k with
+  | nil => exact ⟨rfl, rfl⟩
+  | cons x xs ih =>
+    simp only [List.foldl]
+    obtain ⟨h1, h2⟩ := ih (k.cancel x)
+    exact ⟨h1.trans (cancel_actors k x).1, h2.trans (cancel_actors k x).2⟩
+
+theorem otherFr_die (k : K) (a : Nat) (failed : Bool) : OtherFr a k (k.die a failed).1 := by
+  rw [die_eq]
+  refine OtherFr.trans ?_ (otherFr_setActor _ a _)
+  refine OtherFr.trans (k2 := (k.ownedBy a).foldl (fun k i => k.cancel i) k)
+    (otherFr_of a _ _ (foldl_cancel_actors (k.ownedBy a) k).1 (foldl_cancel_actors (k.ownedBy a) k).2) ?_
+  unfold K.dieTimers
+  have h1 : ∀ k : K, OtherFr a k (k.dieK a) := by
+    intro k; unfold K.dieK; split
+    · exact (otherFr_of a _ _ rfl rfl).trans (otherFr_setActor _ a _)
+    · exact ⟨rfl, fun _ _ => rfl⟩
+  have h2 : ∀ k : K, OtherFr a k (k.dieT a) := by
+    intro k; unfold K.dieT; split
+    · exact (otherFr_of a _ _ rfl rfl).trans (otherFr_setActor _ a _)
+    · exact ⟨rfl, fun _ _ => rfl⟩
+  exact (h1 _).trans (h2 _)
+
+theorem otherFr_slice (a : Nat) (fuel : Nat) (k : K) (evs : List Ev) : OtherFr a k (k.slice a fuel evs).1 := by
+  refine slice_ind a (fun k' => OtherFr a k k') (fun k' => OtherFr a k k') ?_ ?_ ?_ ?_ (fun _ h => h) fuel k evs
+    ⟨rfl, fun _ _ => rfl⟩
+  · intro k' f h _; exact h.trans (otherFr_setActor _ a f)
+  · intro k' r b h _ _; exact h.trans (otherFr_setActor _ a _)
+  · intro k' s h; exact h.trans (otherFr_of a _ _ rfl rfl)
+  · intro k' h; exact h.trans (otherFr_die _ a false)
+
+theorem RunOk.other {a b : Nat} {k k' : K} (h : RunOk k b) (fr : OtherFr a k k') (hb : b ≠ a) : RunOk k' b := by
+  unfold RunOk at h ⊢; rw [fr.2 b hb]; exact h
+
+theorem runAll_reg (l : List Nat) (k : K) (evs : List Ev) (h : RegInv k) (hl : ∀ a ∈ l, RunOk k a) :
+    RegInv (runAll k l evs).1 ∧ (runAll k l evs).1.toRun = k.toRun := by
+  induction l generalizing k evs with
+  | nil => exact ⟨h, rfl⟩
+  | cons a rest ih =>
+    unfold runAll
+    simp only []
+    have hra := hl a (by simp)
+    split
+    · split
+      · have fr := otherFr_die k a true
+        obtain ⟨i1, i2⟩ := ih (k.die a true).1 _ (die_reg k a true h) (by
+          intro b hb
+          by_cases hba : b = a
+          · subst hba; exact die_runOk k b true
+          · exact (hl b (by simp [hb])).other fr hba)
+        exact ⟨i1, i2.trans fr.1⟩
+      · exact ih k _ h (fun b hb => hl b (by simp [hb]))
+    · have fr := otherFr_slice a ((k.actor a).prog.length + 1) k []
+      obtain ⟨s1, s2⟩ := slice_reg a ((k.actor a).prog.length + 1) k [] h hra
+      obtain ⟨i1, i2⟩ := ih (k.slice a ((k.actor a).prog.length + 1) []).1 _ s1 (by
+        intro b hb
+        by_cases hba : b = a
+        · subst hba; exact s2
+        · exact (hl b (by simp [hb])).other fr hba)
+      exact ⟨i1, i2.trans fr.1⟩
+
+/-! ### the maestro loop -/
+
+structure RI (s : St) : Prop where
+  reg : RegInv s.k
+  run : RunInv s.k
+
+theorem subround_ri (s : St) (h : RI s) : RI (subround s) := by
+  unfold subround
+  simp only []
+  have h0 : RegInv ({ s.k with toRun := [] } : K) := h.reg.same (rsame_of _ _ rfl rfl rfl rfl)
+  have hl : ∀ a ∈ s.k.toRun, RunOk ({ s.k with toRun := [] } : K) a := by
+    intro a ha
+    rcases h.run a ha with h1 | h1
+    · exact Or.inl h1
+    · right
+      show (s.k.actor a).idle = true
+      simp [Actor.idle, h1]
+  obtain ⟨r1, r2⟩ := runAll_reg s.k.toRun _ [] h0 hl
+  have hrun : RunInv (runAll { s.k with toRun := [] } s.k.toRun []).1 := by
+    intro a ha; rw [r2] at ha; simp at ha
+  obtain ⟨p1, p2⟩ := handlePending_reg s.now s.k.toRun _ r1 hrun
+  obtain ⟨e1, e2⟩ := handleEnded_reg s.now _ _ p1 p2
+  exact ⟨e1, e2⟩
+
+theorem popWindow_ri (n : Nat) (s : St) (re : List HeapE) (h : RI s) : RI (popWindow n s re).1 := by
+  induction n generalizing s re with
+  | zero => exact h
+  | succ n ih =>
+    unfold popWindow
+    simp only []
+    split
+    · exact h
+    · split
+      · exact ⟨by simpa using h.reg, by simpa using h.run⟩
+      · split
+        · apply ih
+          refine ⟨?_, ?_⟩
+          · simp only [pick_k]
+            exact h.reg.same (rsame_of _ _ rfl rfl rfl rfl)
+          · simp only [pick_k]
+            exact h.run.fr (runfr_of _ _ rfl rfl)
+        · apply ih
+          refine ⟨?_, ?_⟩
+          · simp only [pick_k]
+            refine h.reg.same ?_
+            apply rsame_impls <;> (try rfl)
+            simp only [K.setImpl]
+            rw [map_upd_inv]
+            intro _; rfl
+          · simp only [pick_k]
+            exact h.run.fr (runfr_of _ _ rfl rfl)
+
+theorem execAll_ri (n : Nat) (s : St) (r : Bool) (h : RI s) : RI (execAll n s r).1 := by
+  induction n generalizing s r with
+  | zero => exact h
+  | succ n ih =>
+    unfold execAll
+    simp only []
+    split
+    · exact h
+    · split
+      · exact h
+      · split
+        · exact ⟨by simpa using h.reg, by simpa using h.run⟩
+        · rename_i j hj
+          apply ih
+          have hlt : j < s.k.timers.length := by
+            have := List.mem_of_getElem? hj
+            exact List.mem_range.mp (List.mem_filter.mp this).1
+          have ht : s.k.timers[j]? = some (s.k.timers.getD j default) := by
+            rw [List.getD_eq_getElem?_getD, List.getElem?_eq_getElem hlt]; rfl
+          refine ⟨?_, ?_⟩
+          · simp only [pick_k]
+            exact fire_reg s.k j _ h.reg ht
+          · simp only [pick_k]
+            refine h.run.fr (RunFr.trans (k2 := { s.k with timers := removeNth s.k.timers j }) (runfr_of _ _ rfl rfl)
+              (shr_fire _ _).runFr)
+
+theorem timersLoop_ri (n : Nat) (s : St) (h : RI s) : RI (timersLoop n s) := by
+  induction n generalizing s with
+  | zero => exact h
+  | succ n ih =>
+    unfold timersLoop
+    simp only []
+    have h1 := execAll_ri s.k.timers.length s false h
+    obtain ⟨e1, e2⟩ := handleEnded_reg (execAll s.k.timers.length s false).1.now
+      ((execAll s.k.timers.length s false).1.k.failedQ.length + (execAll s.k.timers.length s false).1.k.doneQ.length)
+      _ h1.reg h1.run
+    have h2 : RI { (execAll s.k.timers.length s false).1 with
+        k := (execAll s.k.timers.length s false).1.k.handleEndedAll (execAll s.k.timers.length s false).1.now } :=
+      ⟨e1, e2⟩
+    split
+    · exact ih _ h2
+    · exact h2
+
+theorem foldl_kill_reg (l : List Nat) (k : K) (h : RegInv k) : RegInv (l.foldl (fun k a => k.kill a) k) := by
+  induction l generalizing k with
+  | nil => exact h
+  | cons x xs ih => exact ih _ (kill_reg k x h)
+
+theorem ri_setDone (s : St) (b : Bool) (h : RI s) : RI (if b then { s with done := true } else s) := by
+  split
+  · exact ⟨h.reg, h.run⟩
+  · exact h
+
+theorem outerTail_ri (s : St) (dl : Option Rat) (h : RI s) : RI (outerTail s dl) := by
+  have h1 : RI (if dl.isNone && s.k.toRun.isEmpty && !s.k.alive.isEmpty then
+      { s with k := s.k.alive.foldl (fun k a => k.kill a) s.k } else s) := by
+    split
+    · exact ⟨foldl_kill_reg _ _ h.reg, h.run.fr (shr_foldl_kill _ _).runFr⟩
+    · exact h
+  unfold outerTail
+  exact ri_setDone _ _ h1
+
+theorem solveStep_ri (s : St) (dl : Option Rat) (h : RI s) : RI (solveStep s dl) := by
+  cases dl with
+  | none => exact h
+  | some d =>
+    unfold solveStep
+    simp only []
+    have := popWindow_ri s.k.heap.length { s with now := s.now + d } [] ⟨h.reg, h.run⟩
+    exact ⟨this.reg.same (rsame_of _ _ rfl rfl rfl rfl), this.run.fr (runfr_of _ _ rfl rfl)⟩
+
+theorem outer_ri (s : St) (h : RI s) : RI (outer s) := by
+  rw [outer_eq]
+  split
+  · exact ⟨h.reg.same (rsame_of _ _ rfl rfl rfl rfl), h.run.fr (runfr_of _ _ rfl rfl)⟩
+  · exact outerTail_ri _ _ (timersLoop_ri _ _ (solveStep_ri s _ h))
+
+theorem step_ri (s : St) (h : RI s) : RI (step s) := by
+  unfold step
+  split
+  · exact h
+  · split
+    · exact outer_ri s h
+    · exact subround_ri s h
+
+theorem run_ri (n : Nat) (s : St) (h : RI s) : RI (run n s) := by
+  induction n generalizing s with
+  | zero => exact h
+  | succ n ih => unfold run; exact ih _ (step_ri s h)
+
 end SgVerif.TimeCore
